@@ -436,3 +436,122 @@ Definition to_exception (b : mbody) : option exn :=
     end
   | _ => None
   end.
+
+(* ---------------------------------------------------------------- UserType._cache (cassandra/cqltypes.py) *)
+(* ResultMessage.read_type builds every UDT option through UserType.make_udt_class, which keeps ONE class per
+   (keyspace, type name) in a process-global cache and hands the cached class back only when its field names and its
+   field types equal the ones just read.  That state outlives a frame, so decoding is modelled as a step over the
+   cache; a class is represented by its (field name, field type) list.  Python compares the subtypes tuples
+   element-wise by class identity; identical classes have identical structure and a re-created class replaces the
+   entry with a structurally equal one, so structural equality gives the same observable classes and cache. *)
+Section Lst.
+  Variable A : Type.
+  Variable e : A -> A -> bool.
+  Fixpoint lst_eqb (a b : list A) : bool :=
+    match a, b with
+    | [], [] => true
+    | x :: a', y :: b' => e x y && lst_eqb a' b'
+    | _, _ => false
+    end.
+  Definition opt_eqb (a b : option A) : bool :=
+    match a, b with Some x, Some y => e x y | None, None => true | _, _ => false end.
+End Lst.
+Arguments lst_eqb {A} e a b.
+Arguments opt_eqb {A} e a b.
+
+Fixpoint cqlt_eqb (a b : cqlt) : bool :=
+  match a, b with
+  | TCustom s, TCustom s' => list_eqb s s'
+  | TPrim c, TPrim c' => c =? c'
+  | TList x, TList y => cqlt_eqb x y
+  | TSet x, TSet y => cqlt_eqb x y
+  | TMap k v, TMap k' v' => cqlt_eqb k k' && cqlt_eqb v v'
+  | TUdt ks nm fs, TUdt ks' nm' fs' =>
+    list_eqb ks ks' && list_eqb nm nm' && lst_eqb (fun p q => list_eqb (fst p) (fst q) && cqlt_eqb (snd p) (snd q)) fs fs'
+  | TTuple ts, TTuple ts' => lst_eqb cqlt_eqb ts ts'
+  | _, _ => false
+  end.
+
+Definition udt_class := list (str * cqlt).
+Definition udt_cache := list ((str * str) * udt_class).
+
+Fixpoint cache_get (c : udt_cache) (ks nm : str) : option udt_class :=
+  match c with
+  | [] => None
+  | ((k, n), cls) :: r => if list_eqb ks k && list_eqb nm n then Some cls else cache_get r ks nm
+  end.
+Fixpoint cache_set (c : udt_cache) (ks nm : str) (cls : udt_class) : udt_cache :=
+  match c with
+  | [] => [((ks, nm), cls)]
+  | ((k, n), old) :: r => if list_eqb ks k && list_eqb nm n then ((k, n), cls) :: r else ((k, n), old) :: cache_set r ks nm cls
+  end.
+
+(* if not instance or instance.fieldnames != field_names or instance.subtypes != field_types: <new class, cached>
+   check_subtypes = false is the variant WITHOUT the third test (kept to show that the test is necessary) *)
+Definition make_udt_class (check_subtypes : bool) (c : udt_cache) (ks nm : str) (fs : udt_class) : cqlt * udt_cache :=
+  match cache_get c ks nm with
+  | Some inst =>
+    if lst_eqb list_eqb (map fst inst) (map fst fs) && (negb check_subtypes || lst_eqb cqlt_eqb (map snd inst) (map snd fs))
+    then (TUdt ks nm inst, c)
+    else (TUdt ks nm fs, cache_set c ks nm fs)
+  | None => (TUdt ks nm fs, cache_set c ks nm fs)
+  end.
+
+(* thread a state through a list, left to right *)
+Definition map_st {A B S} (f : S -> A -> B * S) : S -> list A -> list B * S :=
+  fix go (s : S) (l : list A) : list B * S :=
+    match l with
+    | [] => ([], s)
+    | x :: r => let (y, s1) := f s x in let (r', s2) := go s1 r in (y :: r', s2)
+    end.
+
+(* the classes read_type hands out for a type option: inner options first, fields left to right *)
+Fixpoint intern (cs : bool) (c : udt_cache) (t : cqlt) : cqlt * udt_cache :=
+  match t with
+  | TCustom _ | TPrim _ => (t, c)
+  | TList e => let (e', c') := intern cs c e in (TList e', c')
+  | TSet e => let (e', c') := intern cs c e in (TSet e', c')
+  | TMap k v => let (k', c1) := intern cs c k in let (v', c2) := intern cs c1 v in (TMap k' v', c2)
+  | TTuple ts => let (ts', c') := map_st (intern cs) c ts in (TTuple ts', c')
+  | TUdt ks nm fs =>
+    let (fs', c') := map_st (fun c p => let (t', c1) := intern cs c (snd p) in ((fst p, t'), c1)) c fs in
+    make_udt_class cs c' ks nm fs'
+  end.
+
+Definition intern_cols (cs : bool) : udt_cache -> list colspec -> list colspec * udt_cache :=
+  map_st (fun c col => let (t', c1) := intern cs c (c_type col) in (mkcol (c_ks col) (c_tbl col) (c_name col) t', c1)).
+Definition intern_ocols (cs : bool) (c : udt_cache) (o : option (list colspec)) : option (list colspec) * udt_cache :=
+  match o with Some l => let (l', c') := intern_cols cs c l in (Some l', c') | None => (None, c) end.
+
+(* PREPARED reads the bind columns before the result columns; column_types are the classes of column_metadata *)
+Definition intern_rmsg (cs : bool) (c : udt_cache) (r : rmsg) : rmsg * udt_cache :=
+  let (b', c1) := intern_ocols cs c (r_bind r) in
+  let (m', c2) := intern_ocols cs c1 (r_colmeta r) in
+  (mkr (r_kind r) (r_paging r) (r_cp_seq r) (r_cp_last r) (r_meta_id r) m' (r_colnames r)
+       (match r_coltypes r, m' with Some _, Some (x :: l) => Some (map c_type (x :: l)) | _, _ => r_coltypes r end)
+       (r_rows r) (r_keyspace r) (r_query_id r) b' (r_pk r) (r_schema r), c2).
+
+(* one decode_message call in a process whose UDT cache is c.  (Cache entries written by a frame that is rejected
+   further on are not modelled: by C04_cache_independent no later result can depend on them.) *)
+Definition decode_message_st (cs : bool) (c : udt_cache) (pv : Z) (result_metadata : option (list colspec))
+           (stream flags opcode : Z) (body : bytes) : option msg * udt_cache :=
+  match decode_message pv result_metadata stream flags opcode body with
+  | Some m =>
+    match m_body m with
+    | BResult r => let (r', c') := intern_rmsg cs c r in
+                   (Some (mkmsg (m_stream m) (m_trace m) (m_warnings m) (m_payload m) (BResult r')), c')
+    | _ => (Some m, c)
+    end
+  | None => (None, c)
+  end.
+
+Record frame := mkframe { f_pv : Z; f_rm : option (list colspec); f_stream : Z; f_flags : Z; f_opcode : Z; f_body : bytes }.
+
+(* a history of frames decoded one after the other by the same process *)
+Fixpoint decode_history (cs : bool) (c : udt_cache) (fs : list frame) : list (option msg) :=
+  match fs with
+  | [] => []
+  | f :: r =>
+    let (m, c') := decode_message_st cs c (f_pv f) (f_rm f) (f_stream f) (f_flags f) (f_opcode f) (f_body f) in
+    m :: decode_history cs c' r
+  end.
